@@ -7,6 +7,7 @@ printed against the path it created.  See NOTES.md.
 """
 import os
 import shutil
+import subprocess
 import tempfile
 import time
 
@@ -33,6 +34,62 @@ def build(tier):
     return bins[0], helpers
 
 
+# ---- endianness(): configuration enumeration -----------------------------------------------------------------------------
+# what a translation unit may have seen before xtl/xplatform.hpp: system headers that define byte-order macros, and the macro
+# sets real little-endian platforms define (BSD family / libbsd: both _BIG_ENDIAN and _LITTLE_ENDIAN as the constants 4321 /
+# 1234 next to _BYTE_ORDER; the unprefixed BSD names; glibc's __-prefixed names).  Never a lone "I am big endian" flag: that
+# would be lying to the library about the target.
+ENDIAN_PROBE = os.path.join(HERE, "endian_probe.cpp")
+ENDIAN_PRE = [
+    ("none", None, []),
+    ("endian.h", "<endian.h>", []),
+    ("sys/param.h", "<sys/param.h>", []),
+    ("sys/types.h", "<sys/types.h>", []),
+    ("netinet/in.h", "<netinet/in.h>", []),
+    ("bsd/sys/endian.h", "<bsd/sys/endian.h>", []),  # only when the header exists (libbsd-dev)
+    ("D:_BIG_ENDIAN=4321,_LITTLE_ENDIAN=1234,_BYTE_ORDER=1234", None, ["_BIG_ENDIAN=4321", "_LITTLE_ENDIAN=1234", "_BYTE_ORDER=1234"]),
+    ("D:BIG_ENDIAN=4321,LITTLE_ENDIAN=1234,BYTE_ORDER=1234", None, ["BIG_ENDIAN=4321", "LITTLE_ENDIAN=1234", "BYTE_ORDER=1234"]),
+    ("D:__BIG_ENDIAN=4321,__LITTLE_ENDIAN=1234,__BYTE_ORDER=1234", None, ["__BIG_ENDIAN=4321", "__LITTLE_ENDIAN=1234", "__BYTE_ORDER=1234"]),
+]
+ENDIAN_COMPILERS = ["g++", "clang++"]
+ENDIAN_STDS = ["c++14", "c++17"]
+ENDIAN_OPTS = ["-O0", "-O2"]
+
+
+def has_header(compiler, header):
+    r = subprocess.run([compiler, "-x", "c++", "-fsyntax-only", "-"], input="#include %s\n" % header, stdout=subprocess.PIPE,
+                       stderr=subprocess.PIPE, text=True)
+    return r.returncode == 0
+
+
+def endian_build(pre, cc, std, opt):
+    name, header, defs = [e for e in ENDIAN_PRE if e[0] == pre][0]
+    defines = list(defs) + ['C20_CFG="pre=%s %s -std=%s %s"' % (name, cc, std, opt)]
+    if header:
+        defines.append("C20_PRE=" + header)
+    tag = "c20-endian-%s" % "".join(ch if ch.isalnum() else "_" for ch in "%s-%s-%s-%s" % (name[:24], cc, std, opt))
+    return vlib.compile_cxx(ENDIAN_PROBE, tag, std=std, opt=opt, san="none", compiler=cc, flags=["-w"], defines=defines)
+
+
+def endian_run(ctx, pre, cc, std, opt, sample=False):
+    binary = endian_build(pre, cc, std, opt)
+    ctx.run_harness(binary, (["--sample"] if sample else []) + [pre, cc, std, opt], tag="c20-endian")
+
+
+def endian_configs(ctx):
+    out = []
+    for name, header, _ in ENDIAN_PRE:
+        for cc in ENDIAN_COMPILERS:
+            if header and not has_header(cc, header):
+                ctx.note("endianness configuration pre=%s skipped for %s: the header is not installed" % (name, cc))
+                ctx.stat("endianness_configurations_unavailable", len(ENDIAN_STDS) * len(ENDIAN_OPTS))
+                continue
+            for std in ENDIAN_STDS:
+                for opt in ENDIAN_OPTS:
+                    out.append((name, cc, std, opt))
+    return out
+
+
 def scratch_root():
     # /tmp, outside /repo and /verif; removed in the finally blocks below
     return tempfile.mkdtemp(prefix="c20_", dir="/tmp")
@@ -51,10 +108,12 @@ def order_key(v):
         n = {"short": 0, "natural": 0, "max": 10 ** 6, "first": 0, "middle": 1, "last-dir": 2, "file": 3}.get(a[3])
         return (v["sig"], a[1], int(a[2]), int(a[3]) if n is None else n)
     except Exception:
-        return (v["sig"], "", 0, 0)
+        return (v["sig"], " ".join(a), 0, 0)
 
 
 def run(ctx):
+    cfgs = endian_configs(ctx)
+    vlib.parallel([(lambda c=c, i=i: endian_run(ctx, *c, sample=(i % 13 == 5))) for i, c in enumerate(cfgs)], workers=WORKERS)
     driver, helpers = build(ctx.tier)
     top = scratch_root()
     try:
@@ -80,8 +139,11 @@ def run(ctx):
     # likewise the samples kept in the evidence: up to three written-out cases per grid, chosen independently of which shard finished first
     allsamples = sorted(rec["v"] for recs in results for rec in recs if rec.get("t") == "sample")
     ctx.samples = []
+    esamples = sorted(v for v in ctx.samples if v.startswith("[endianness configuration"))[:3]
+    ctx.samples = []
     for g in "ABCD":
-        ctx.samples += [v for v in allsamples if v.startswith("[grid %s," % g)][:3]
+        ctx.samples += [v for v in allsamples if v.startswith("[grid %s," % g)][:2 if g == "A" else 3]
+    ctx.samples += esamples[:12 - len(ctx.samples)]
 
     ctx.stat("helper_builds", len(helpers))
     thorough = ctx.tier == "thorough"
@@ -99,7 +161,12 @@ def run(ctx):
         "Grid D = 3..6-byte names with ONE 255-byte name as {first, middle, last directory, program name} x depth %s x flavour %s x invocation %s. "
         "The requested length is spread evenly over the depth+1 names (each 1..255 bytes); (depth, length) cells that no such split reaches are counted in "
         "cells_not_creatable / cases_not_creatable and are not part of the space. "
-        "distinct_nontrivial = distinct (install path below the root, invocation) pairs that are NOT of the kind the test-suite already runs, i.e. excluding "
+        "endianness() is in addition decided per BUILD CONFIGURATION (endian_probe.cpp, one translation unit each): what is seen before xtl/xplatform.hpp "
+        "{nothing, <endian.h>, <sys/param.h>, <sys/types.h>, <netinet/in.h>, <bsd/sys/endian.h> when installed, -D_BIG_ENDIAN=4321 -D_LITTLE_ENDIAN=1234 "
+        "-D_BYTE_ORDER=1234, -DBIG_ENDIAN.. -DLITTLE_ENDIAN.. -DBYTE_ORDER.., -D__BIG_ENDIAN.. -D__LITTLE_ENDIAN.. -D__BYTE_ORDER..} x {g++, clang++} x "
+        "{c++14, c++17} x {-O0, -O2}, same in both tiers; each must report the byte layout of uint16/32/64 seen through memcpy (which must agree with "
+        "__BYTE_ORDER__); every such configuration except 'nothing' counts as one distinct non-trivial case. "
+        "distinct_nontrivial (paths) = distinct (install path below the root, invocation) pairs that are NOT of the kind the test-suite already runs, i.e. excluding "
         "plain-ASCII paths shorter than 256 bytes started directly or as ./name; the second helper build does not add to it"
         % ((", symlink to a symlink to the file" if thorough else "", [h[0] for h in helpers]) +
            ((", all three", "total length {natural (depth 4 between opt/local/app/bin/prog), 1023, 1024, 2048, 4095 (depth 17, plain padding)}", "as grid A",
@@ -107,6 +174,7 @@ def run(ctx):
             ("", "natural length (depth 4 between opt/local/app/bin/prog)", "{direct, symlink to the file}", "{3,8}", "{plain, spaces, highbytes}",
              "{direct, symlink to the file}"))))
     ctx.assumptions += [
+        "endianness configurations only use macro sets that real platforms define consistently with a little-endian target (both constants + the selector); a lone 'this target is big endian' flag (__BIG_ENDIAN__, __ARMEB__, ...) is never defined: that would misdescribe the target and is out of scope",
         "the oracle is the path the driver created (canonical scratch root + the names it generated); it is never read back from the program under test",
         "Linux x86-64 only: the _WIN32, __APPLE__, __FreeBSD__ and __sun branches of xsystem.hpp and the big-endian / mixed answers of endianness() are unreachable on this platform",
         "install paths live under a mkdtemp directory in /tmp (ext4 here); names are at most NAME_MAX=255 bytes and never '.' or '..'; hard links, bind mounts, deleted or replaced executables and paths longer than PATH_MAX-1 are outside the alphabet",
@@ -120,6 +188,9 @@ def run(ctx):
 
 
 def replay(ctx, rec):
+    if rec.get("harness") == "c20-endian":
+        endian_run(ctx, *[a for a in rec["args"] if a != "--sample"][:4])
+        return
     driver, helpers = build(rec.get("tier", ctx.tier))
     top = scratch_root()
     try:
